@@ -58,6 +58,9 @@ type mcSpec struct {
 	PipeBA     pipeSpec   `json:"pipeB->A"`
 	SizeSample []int      `json:"size_sample"`
 	Procs      int        `json:"procs"`
+	// fault injection: the transport fails (both directions) after CutAt bytes were read from direction CutDir
+	CutDir string `json:"cut_dir,omitempty"`
+	CutAt  int64  `json:"cut_at,omitempty"`
 }
 
 type side struct {
@@ -90,7 +93,14 @@ type mcHarness struct {
 	running int32 // 1 while the harness considers the connection up
 	errMu   sync.Mutex
 	errs    []string
+	cbMu    sync.RWMutex // callbacks hold it shared; the harness takes it exclusively to switch them off
+	cbOff   bool
+	judged  int32 // set with the first violation of the case
+	prog    int64 // progress signal for the stall watchdog: deliveries + returned Send calls
+	broken  *int32 // the harness pipe's "reset" flag (nil for net.Pipe)
 }
+
+func (h *mcHarness) cut() bool { return h.broken != nil && atomic.LoadInt32(h.broken) == 1 }
 
 func (h *mcHarness) finish(reason string) {
 	h.fin.Do(func() {
@@ -131,6 +141,11 @@ func (h *mcHarness) witness(extra map[string]interface{}) map[string]interface{}
 	return w
 }
 
+// static describes the immutable part (safe while senders are still running).
+func (m *msg) static() map[string]interface{} {
+	return map[string]interface{}{"idx": m.Idx, "channel_index": m.Ch, "sender": m.Sender, "len": len(m.data), "trysend": m.Try, "fence": m.Fence, "head": short(m.data)}
+}
+
 func (m *msg) describe() map[string]interface{} {
 	return map[string]interface{}{"idx": m.Idx, "channel_index": m.Ch, "sender": m.Sender, "len": len(m.data), "trysend": m.Try, "fence": m.Fence,
 		"send_returned": m.ok, "invoked_at": m.inv, "returned_at": m.ret, "head": short(m.data)}
@@ -139,13 +154,37 @@ func (m *msg) describe() map[string]interface{} {
 // onReceive is the receive callback of side `to` (messages were sent by `from`).
 func (h *mcHarness) onReceive(to, from *side) func(chID byte, b []byte) {
 	return func(chID byte, b []byte) {
+		h.cbMu.RLock()
+		defer h.cbMu.RUnlock()
+		if h.cbOff || atomic.LoadInt32(&h.judged) == 1 {
+			return // switched off, or this case already has its verdict (teardown after a violation is not judged again)
+		}
 		for i := 0; i < to.slow; i++ {
 			runtime.Gosched()
 		}
+		// a delivery that happens after the transport failed / the connection was stopped is
+		// judged like any other (the reactor receives it), but gets its own class of keys
+		teardown := h.cut() || !to.mc.IsRunning()
+		bogus := func(k, detail string, extra map[string]interface{}) {
+			if extra == nil {
+				extra = map[string]interface{}{}
+			}
+			extra["received"] = short(b)
+			extra["received_len"] = len(b)
+			extra["receiver_running"] = to.mc.IsRunning()
+			extra["transport_cut_by_harness"] = h.cut()
+			extra["sender_wire_tail"] = wireTail(from.tap.bytes(), h.spec.Payload, 6)
+			if teardown {
+				k = "mconn/teardown/partial-packet-delivered"
+				detail += " -- delivered after the connection had failed/stopped: the packet being read when the read error hit was handed on as if complete"
+			}
+			atomic.StoreInt32(&h.judged, 1)
+			h.c.Violation(k, detail, h.witness(extra))
+			h.finish("violation")
+		}
 		ci, ok := h.chIdx[chID]
 		if !ok {
-			h.c.Violation("mconn/delivered-on-unknown-channel", fmt.Sprintf("%s received %d bytes on channel %#x which is not configured", to.name, len(b), chID), h.witness(nil))
-			h.finish("violation")
+			bogus("mconn/delivered-on-unknown-channel", fmt.Sprintf("%s received %d bytes on channel %#x which is not configured", to.name, len(b), chID), nil)
 			return
 		}
 		var m *msg
@@ -153,9 +192,8 @@ func (h *mcHarness) onReceive(to, from *side) func(chID byte, b []byte) {
 			m = from.byKey[k]
 		}
 		if m == nil {
-			h.c.Violation("mconn/unknown-message", fmt.Sprintf("%s received on channel index %d a message no sender produced: %s", to.name, ci, short(b)),
-				h.witness(map[string]interface{}{"received": short(b), "channel_index": ci}))
-			h.finish("violation")
+			bogus("mconn/unknown-message", fmt.Sprintf("%s received on channel index %d a %d-byte message no sender produced: %s", to.name, ci, len(b), short(b)),
+				map[string]interface{}{"channel_index": ci})
 			return
 		}
 		if !bytes.Equal(b, m.data) {
@@ -166,17 +204,18 @@ func (h *mcHarness) onReceive(to, from *side) func(chID byte, b []byte) {
 			case len(b) < len(m.data) && bytes.HasPrefix(m.data, b):
 				k = "mconn/message-split"
 			}
-			h.c.Violation(k, fmt.Sprintf("%s received %d bytes for message idx=%d of %d bytes on channel index %d", to.name, len(b), m.Idx, len(m.data), ci),
-				h.witness(map[string]interface{}{"received": short(b), "sent": m.describe()}))
-			h.finish("violation")
+			bogus(k, fmt.Sprintf("%s received %d bytes for message idx=%d of %d bytes on channel index %d", to.name, len(b), m.Idx, len(m.data), ci),
+				map[string]interface{}{"sent": m.static()})
 			return
 		}
 		if m.Ch != ci {
+			atomic.StoreInt32(&h.judged, 1)
 			h.c.Violation("mconn/wrong-channel", fmt.Sprintf("%s received message idx=%d on channel index %d, it was sent on %d", to.name, m.Idx, ci, m.Ch),
-				h.witness(map[string]interface{}{"sent": m.describe()}))
+				h.witness(map[string]interface{}{"sent": m.static()}))
 			h.finish("violation")
 			return
 		}
+		atomic.AddInt64(&h.prog, 1)
 		to.rmu.Lock()
 		to.recvd[ci] = append(to.recvd[ci], m)
 		to.delCount[m]++
@@ -188,8 +227,9 @@ func (h *mcHarness) onReceive(to, from *side) func(chID byte, b []byte) {
 		}
 		to.rmu.Unlock()
 		if dup {
+			atomic.StoreInt32(&h.judged, 1)
 			h.c.Violation("mconn/duplicate-delivery", fmt.Sprintf("%s received message idx=%d twice on channel index %d", to.name, m.Idx, ci),
-				h.witness(map[string]interface{}{"sent": m.describe()}))
+				h.witness(map[string]interface{}{"sent": m.static()}))
 			h.finish("violation")
 			return
 		}
@@ -204,6 +244,29 @@ func (h *mcHarness) onReceive(to, from *side) func(chID byte, b []byte) {
 			}
 		}
 	}
+}
+
+// wireTail decodes the plaintext packet stream a side wrote and describes its last n packets.
+func wireTail(log []byte, payload, n int) []string {
+	rd := bytes.NewReader(log)
+	var out []string
+	for rd.Len() > 0 {
+		var p p2pconn.Packet
+		if _, err := ser.DecodeReaderWithType(rd, &p, int64(payload+4096)); err != nil {
+			out = append(out, "(undecodable tail: "+err.Error()+")")
+			break
+		}
+		switch pk := p.(type) {
+		case p2pconn.PacketMsg:
+			out = append(out, fmt.Sprintf("msg ch=%#x eof=%d len=%d head=%s", pk.ChannelID, pk.EOF, len(pk.Bytes), short(pk.Bytes)))
+		default:
+			out = append(out, fmt.Sprintf("%T", p))
+		}
+	}
+	if len(out) > n {
+		out = out[len(out)-n:]
+	}
+	return out
 }
 
 func (h *mcHarness) onError(s *side) func(interface{}) {
@@ -331,6 +394,16 @@ func runMConn(c *core.Ctx, procs int) {
 	sp.Slow = [2]int{[]int{0, 0, 1, 5, 40}[r.Intn(5)], []int{0, 0, 1, 5, 40}[r.Intn(5)]}
 	sp.Senders = [2]int{r.Range(1, 8), r.Range(1, 8)}
 	sp.PipeAB, sp.PipeBA = genPipeSpec(r), genPipeSpec(r)
+	wantCut := strings.HasSuffix(sp.Transport, "/pipe") && r.Chance(0.25)
+	cutFrac := float64(r.Intn(1000)) / 1000
+	cutDirAB := r.Bool()
+
+	if wantCut {
+		// a Send blocked on a full queue when the connection dies waits out the 10 s send timeout
+		for i := range sp.Chans {
+			sp.Chans[i].SendQ = 600
+		}
+	}
 
 	budgetBytes, budgetMsgs := 900000, 250
 	if sp.Payload < 64 {
@@ -379,6 +452,22 @@ func runMConn(c *core.Ctx, procs int) {
 	if usePipe {
 		sp.PipeAB.apply(pa.out, nil)
 		sp.PipeBA.apply(pb.out, nil)
+		h.broken = pa.out.broken
+		pa.out.prog, pb.out.prog = &h.prog, &h.prog // bytes moving through the pipe count as progress too
+		if wantCut {
+			// somewhere inside the bytes this direction is going to carry (wire overhead ignored:
+			// a cut beyond the end simply never happens and the run completes normally)
+			hf, vol := pa.out, sp.Bytes[0]
+			sp.CutDir = "A->B"
+			if !cutDirAB {
+				hf, vol = pb.out, sp.Bytes[1]
+				sp.CutDir = "B->A"
+			}
+			sp.CutAt = 1 + int64(cutFrac*float64(vol))
+			hf.mu.Lock()
+			hf.failAt = hf.nread + sp.CutAt
+			hf.mu.Unlock()
+		}
 	}
 	ta, tb := &tapConn{Conn: ca}, &tapConn{Conn: cb}
 	h.sides[0].tap, h.sides[1].tap = ta, tb
@@ -435,6 +524,7 @@ func runMConn(c *core.Ctx, procs int) {
 						m.ok = s.mc.Send(chID, m.data)
 					}
 					m.ret = atomic.AddInt64(&h.clk, 1)
+					atomic.AddInt64(&h.prog, 1)
 					if i%3 == 0 {
 						runtime.Gosched()
 					}
@@ -463,9 +553,7 @@ func runMConn(c *core.Ctx, procs int) {
 	}
 
 	timedOut := false
-	select {
-	case <-h.done:
-	case <-time.After(watchdog):
+	if waitDone(h.done, &h.prog) {
 		timedOut = true
 		h.finish("watchdog")
 	}
@@ -476,20 +564,26 @@ func runMConn(c *core.Ctx, procs int) {
 		f()
 	}
 	all.Wait()
+	h.cbMu.Lock()
+	h.cbOff = true
+	h.cbMu.Unlock()
 	if timedOut {
 		c.Inconclusive("watchdog: mconn case did not finish (fences not delivered, no error reported)")
 		return
 	}
 
-	pongTolerated := false
 	if h.reason == "conn-error" {
 		h.errMu.Lock()
 		errs := append([]string(nil), h.errs...)
 		h.errMu.Unlock()
-		if sp.PingMs > 0 && len(errs) > 0 && strings.Contains(errs[0], "pong timeout") {
-			// the only wall-clock dependent teardown we provoke ourselves; prefix oracles still apply
+		if h.cut() {
+			// we broke the transport ourselves: losses are fine, everything delivered is still judged
+			c.Count("mc_runs_cut_by_harness", 1)
+		} else if sp.PingMs > 0 {
+			// fast pings: a pong that takes longer than the (wall-clock) pong timeout makes one side stop,
+			// the other side then sees EOF (its error can be reported first). Provoked by our own
+			// configuration, so tolerated; everything delivered is still judged
 			c.Count("mc_pong_timeouts_tolerated", 1)
-			pongTolerated = true
 		} else {
 			c.Violation("mconn/self-inflicted-disconnect", fmt.Sprintf("the connection reported an error although the transport never failed and both ends are honest: %v", errs),
 				h.witness(map[string]interface{}{"errors": errs}))
@@ -503,7 +597,6 @@ func runMConn(c *core.Ctx, procs int) {
 		c.Count("mc_runs_completed", 1)
 		c.Count("mc_transport_"+strings.Replace(sp.Transport, "/", "_", -1), 1)
 	}
-	_ = pongTolerated
 	h.packetStats(A)
 	h.packetStats(B)
 
@@ -583,7 +676,7 @@ func (h *mcHarness) postCheck(from, to *side) {
 			if m.Try {
 				c.Count("mc_trysend_rejected", 1)
 			} else {
-				c.Count("mc_send_timed_out", 1)
+				c.Count("mc_send_returned_false", 1)
 			}
 		}
 	}
